@@ -67,6 +67,9 @@ RAW_TEMPLATES = [
     "? complexkey\n: TAG [1, 2]\n1.5: TAG {2: [x]}\n-3: TAG y\n",
     "q: TAG \"!x{{1}}\"\nr: 'text !metadata{{ not a tag }}'\n",
     "c: TAG [1, 2] # !force{{'a': 1, }} in a comment\n",
+    # lines made of blanks only inside block scalars (more blanks than the block's indentation are content), indented documents
+    "a: TAG\n  lit: |\n    first\n       \n    last\n  fold: >\n    one\n      \n    two\n  tail: |+\n    x\n     \n",
+    "  top: TAG\n    blk: |-\n      a\n        \n      b\n    n: 1\n  other: TAG [1, 2]\n",
 ]
 RAW_TAGS = ['!force', '!weak', '!del', '!merge', '!new', '!unsafe', "!metadata{{'m': 1, }}", "!metadata{{'priority': 1, 'delete': False, }}", '']
 
